@@ -2801,7 +2801,14 @@ func (data *Data) DropSubscription(database, rp, name string) error {
 		if !ok {
 			return ErrDatabaseNotExists
 		}
-		for _, rpi := range db.RetentionPolicies {
+		// walk the policies in name order: every replica has to remove the same subscription
+		rpNames := make([]string, 0, len(db.RetentionPolicies))
+		for rpName := range db.RetentionPolicies {
+			rpNames = append(rpNames, rpName)
+		}
+		sort.Strings(rpNames)
+		for _, rpName := range rpNames {
+			rpi := db.RetentionPolicies[rpName]
 			for i := range rpi.Subscriptions {
 				if rpi.Subscriptions[i].Name == name {
 					rpi.Subscriptions = append(rpi.Subscriptions[:i], rpi.Subscriptions[i+1:]...)
